@@ -1,8 +1,10 @@
 import MidnightZK.Proofs.C17.Keys
 import MidnightZK.Proofs.C17.Perm
+import MidnightZK.Proofs.C17.Params
 import MidnightZK.Model.C17.Transcript
 import MidnightZK.Model.C17.Params
 import MidnightZK.Gen.C17Consts
+import MidnightZK.Model.C17.Field
 /-!
 # C17 — key generation is deterministic; keys survive serialisation unchanged
 Property theorems (helper lemmas live in `MidnightZK/Proofs/C17`).
@@ -160,6 +162,265 @@ theorem vk_read_rejects_count (c : Codec P) (v kb : UInt8) (fmt : Format) (sh : 
   simp [readExact] at e3
   simp [e3, ofLe32_le32 n hn, hne]
 
+/-! ## Proving key -/
+
+/-- `polyvec_roundtrip`: `read_polynomial_vec ∘ write_polynomial_slice = id` in every format
+(polynomials are always written raw; `Processed` and `RawBytes` both use the checked reader). -/
+theorem polyvec_roundtrip (fc : FCodec F) (hfc : fc.Lawful) (fmt : Format) (ps : List (List F))
+    (hn : ps.length < 2 ^ 32) (hl : ∀ p ∈ ps, p.length < 2 ^ 32) (rest : Bytes) :
+    readPolyVec fc fmt (writePolyVec fc ps ++ rest) = .ok (ps, rest) :=
+  readPolyVec_write fc hfc fmt ps hn hl rest
+
+example : readPolyVec toyF .processed (writePolyVec toyF [[1, 2], [], [3]] ++ [9]) = .ok ([[1, 2], [], [3]], [9]) := by
+  rfl
+
+/-- `pk_roundtrip`: `ProvingKey::read ∘ ProvingKey::write` returns the stored part (verifying
+key, fixed columns, permutation polynomials) unchanged, for compatible formats. -/
+theorem pk_roundtrip (c : Codec P) (hc : c.Lawful) (fc : FCodec F) (hfc : fc.Lawful) (v : UInt8)
+    (fa fb : Format) (hcompat : fa.compat fb = true) (sh : Shape) (pk : PKStored P F) (rest : Bytes)
+    (hk : pk.vk.k ≤ sh.S) (hk8 : pk.vk.k < 256) (hext : extendedK pk.vk.k (sh.degree - 1) ≤ sh.S)
+    (hf : pk.vk.fixed.length = sh.nFixed) (hp : pk.vk.perm.length = sh.nPerm) (h32 : sh.nFixed < 2 ^ 32)
+    (hn1 : pk.fixedValues.length < 2 ^ 32) (hl1 : ∀ p ∈ pk.fixedValues, p.length < 2 ^ 32)
+    (hn2 : pk.permutations.length < 2 ^ 32) (hl2 : ∀ p ∈ pk.permutations, p.length < 2 ^ 32) :
+    readPK c fc v fb sh (writePK c fc v fa pk ++ rest) = .ok (pk, rest) := by
+  unfold readPK writePK
+  rw [List.append_assoc, List.append_assoc,
+    vk_roundtrip c hc v fa fb hcompat sh pk.vk _ hk hk8 hext hf hp h32]
+  simp only []
+  rw [readPolyVec_write fc hfc fb _ hn1 hl1]
+  simp only []
+  rw [readPolyVec_write fc hfc fb _ hn2 hl2]
+
+/-- `pk_roundtrip_equiv`: everything else in a proving key (`l0`, `l_last`, `l_active_row`, the
+coefficient and extended forms of the fixed columns and of the permutation polynomials, the
+evaluator) is recomputed by `ProvingKey::read` from the stored part by the same functions
+`keygen_pk` uses; so a key whose derived parts are those functions of its stored part — as
+`keygen_pk` builds it — is reproduced in full by write-then-read. -/
+theorem pk_roundtrip_equiv {X : Type} (c : Codec P) (hc : c.Lawful) (fc : FCodec F) (hfc : fc.Lawful)
+    (v : UInt8) (fa fb : Format) (hcompat : fa.compat fb = true) (sh : Shape)
+    (toCoeff toExt : Nat → List F → List F) (lag : Nat → X) (full : PKFull P F X)
+    (hwf : full = derivePK toCoeff toExt lag full.stored)
+    (hk : full.stored.vk.k ≤ sh.S) (hk8 : full.stored.vk.k < 256)
+    (hext : extendedK full.stored.vk.k (sh.degree - 1) ≤ sh.S)
+    (hf : full.stored.vk.fixed.length = sh.nFixed) (hp : full.stored.vk.perm.length = sh.nPerm)
+    (h32 : sh.nFixed < 2 ^ 32)
+    (hn1 : full.stored.fixedValues.length < 2 ^ 32) (hl1 : ∀ p ∈ full.stored.fixedValues, p.length < 2 ^ 32)
+    (hn2 : full.stored.permutations.length < 2 ^ 32) (hl2 : ∀ p ∈ full.stored.permutations, p.length < 2 ^ 32) :
+    (readPK c fc v fb sh (writePK c fc v fa full.stored)).map (fun r => derivePK toCoeff toExt lag r.1)
+      = .ok full := by
+  have h := pk_roundtrip c hc fc hfc v fa fb hcompat sh full.stored [] hk hk8 hext hf hp h32 hn1 hl1 hn2 hl2
+  rw [List.append_nil] at h
+  rw [h]
+  simp only [Except.map]
+  rw [← hwf]
+
+/-! ## Transcript identity -/
+
+/-- `transcript_repr_roundtrip`: a key read back (in any compatible format) has the transcript
+identity of the original, for every hash: the preimage is built from the commitments in the raw
+encoding whatever format the key came from, and from the pinned description of the circuit. -/
+theorem transcript_repr_roundtrip (c : Codec P) (hc : c.Lawful) (v : UInt8) (h : Bytes → Nat)
+    (fa fb : Format) (hcompat : fa.compat fb = true) (sh : Shape) (vk : VK P) (desc : Bytes)
+    (hk : vk.k ≤ sh.S) (hk8 : vk.k < 256) (hext : extendedK vk.k (sh.degree - 1) ≤ sh.S)
+    (hf : vk.fixed.length = sh.nFixed) (hp : vk.perm.length = sh.nPerm) (h32 : sh.nFixed < 2 ^ 32) :
+    (readVK c v fb sh (writeVK c v fa vk)).map (fun r => transcriptRepr c v h r.1 desc)
+      = .ok (transcriptRepr c v h vk desc) := by
+  have := vk_roundtrip c hc v fa fb hcompat sh vk [] hk hk8 hext hf hp h32
+  rw [List.append_nil] at this
+  rw [this]; rfl
+
+/-- `transcript_preimage_injective`: the buffer hashed into `transcript_repr` determines `k`,
+every fixed commitment, every permutation commitment and the pinned description: two keys with
+the same preimage are the same key for the same circuit description (so a collision of
+transcript identities is a collision of BLAKE2b). Uses that the raw encoding has a fixed
+length and is injective, and that both commitment lists are length-prefixed. -/
+theorem transcript_preimage_injective (c : Codec P) (hc : c.Lawful) (v : UInt8) (vk₁ vk₂ : VK P)
+    (d₁ d₂ : Bytes) (hk₁ : vk₁.k < 256) (hk₂ : vk₂.k < 256)
+    (hf₁ : vk₁.fixed.length < 2 ^ 32) (hf₂ : vk₂.fixed.length < 2 ^ 32)
+    (hp₁ : vk₁.perm.length < 2 ^ 32) (hp₂ : vk₂.perm.length < 2 ^ 32)
+    (h : transcriptPreimage c v vk₁ d₁ = transcriptPreimage c v vk₂ d₂) : vk₁ = vk₂ ∧ d₁ = d₂ := by
+  have a := unparsePre_preimage c hc v vk₁ d₁ hk₁ hf₁ hp₁
+  have b := unparsePre_preimage c hc v vk₂ d₂ hk₂ hf₂ hp₂
+  rw [h, b] at a
+  simp only [Option.some.injEq, Prod.mk.injEq] at a
+  exact ⟨a.1.symm, a.2.symm⟩
+
+example : transcriptPreimage toyCodec 3 ⟨5, [7], [9, 1]⟩ [0x41] =
+    [3, 5, 1, 0, 0, 0, 7, 7, 2, 0, 0, 0, 9, 9, 1, 1, 0x41] := by rfl
+
+/-! ## Parameters: write, then read -/
+
+/-- `params_roundtrip`: `read_custom ∘ write_custom = id` for compatible formats: `k`, the
+monomial basis, the Lagrange basis, `g2` and `s_g2` come back unchanged. -/
+theorem params_roundtrip {G1 G2 : Type} (c1 : Codec G1) (h1 : c1.Lawful) (c2 : Codec G2) (h2 : c2.Lawful)
+    (fa fb : Format) (hcompat : fa.compat fb = true) (p : ParamsB G1 G2) (rest : Bytes)
+    (hk : p.k < 2 ^ 32) (hg : p.g.length = 2 ^ p.k) (hgl : p.gLagrange.length = 2 ^ p.k) :
+    readParams c1 c2 fb (writeParams c1 c2 fa p ++ rest) = .ok (p, rest) := by
+  have e0 := readExact_append' 4 (le32 p.k)
+    (c1.writeMany fa p.g ++ (c1.writeMany fa p.gLagrange ++ (c2.enc fa p.g2 ++ (c2.enc fa p.sG2 ++ rest))))
+    (le32_length _)
+  have r1 := readG1Vec_writeMany c1 h1 fa fb hcompat p.g
+    (c1.writeMany fa p.gLagrange ++ (c2.enc fa p.g2 ++ (c2.enc fa p.sG2 ++ rest)))
+  have r2 := readG1Vec_writeMany c1 h1 fa fb hcompat p.gLagrange (c2.enc fa p.g2 ++ (c2.enc fa p.sG2 ++ rest))
+  rw [hg] at r1
+  rw [hgl] at r2
+  unfold readParams writeParams
+  simp only [List.append_assoc, e0, ofLe32_le32 _ hk, r1, r2, Codec.read_enc c2 h2 fa fb hcompat]
+
+/-! ## Permutation polynomials under `parallelize` -/
+
+section
+variable {α : Type} {K : Type} [Mul K] [One K] [Zero K]
+
+/-- `parallelize_indexwise`: for every positive thread count, `parallelize` applied to a
+worker that treats element `start + x` of its chunk as global index `start + x` computes the
+index-wise map: the result does not depend on the number of threads. -/
+theorem parallelize_indexwise' (t : Nat) (ht : 0 < t) (v : List α) (f : List α → Nat → List α)
+    (g : Nat → α → α) (hf : ∀ ch start, f ch start = ch.mapIdx (fun x a => g (start + x) a)) :
+    parallelizeM t v f = v.mapIdx g :=
+  parallelize_indexwise t ht v f g hf
+
+/-- `omega_powers_chunked`: the `omega_powers` vector of `build_pk`/`build_vk` (each worker
+starts from `ω^start` and multiplies on) is `[ω^0, …, ω^(n−1)]` for every thread count. -/
+theorem omega_powers_chunked (t : Nat) (ht : 0 < t) (ω : K) (n : Nat) :
+    omegaPowers t ω n = (List.range n).map (powN ω) :=
+  omegaPowers_eq t ht ω n
+
+/-- `deltaomega_chunked`: row `i` of `deltaomega` is `omega_powers · δ^i` for every thread count. -/
+theorem deltaomega_chunked (t : Nat) (ht : 0 < t) (δ : K) (op : List K) (ncols : Nat) :
+    deltaOmega t δ op ncols = (List.range ncols).map (fun i => op.map (· * powN δ i)) :=
+  deltaOmega_eq t ht δ op ncols
+
+/-- `permutation_by_index`: the permutation polynomials built by `build_pk` / `build_vk`
+through three nested `parallelize` calls are, for every positive thread count, every domain
+size, every number of columns and every mapping, the index-wise table
+`σ_i[j] = δ^{i'}·ω^{j'}` with `(i', j') = mapping(i, j)` — in particular the same for any two
+thread counts. -/
+theorem permutation_by_index (t : Nat) (ht : 0 < t) (ω δ : K) (n ncols : Nat) (mapping : Nat → Nat → Cell) :
+    buildPermutations t ω δ n ncols mapping = permSpec ω δ n ncols mapping :=
+  buildPermutations_eq t ht ω δ n ncols mapping
+
+/-- `permutation_thread_independent`: two key generations under different thread counts build
+the same permutation polynomials. -/
+theorem permutation_thread_independent (t₁ t₂ : Nat) (h₁ : 0 < t₁) (h₂ : 0 < t₂) (ω δ : K) (n ncols : Nat)
+    (mapping : Nat → Nat → Cell) :
+    buildPermutations t₁ ω δ n ncols mapping = buildPermutations t₂ ω δ n ncols mapping := by
+  rw [permutation_by_index t₁ h₁, permutation_by_index t₂ h₂]
+
 end
+
+example : buildPermutations 3 (2 : Int) 3 4 2 (fun i j => if i = 0 ∧ j = 1 then (1, 2) else (i, j))
+    = [[1, 12, 4, 8], [3, 6, 12, 24]] := by decide
+
+end
+
+/-! ## `downsize` -/
+
+section
+variable {K : Type} [Field K]
+
+/-- `downsize_spec`: for a target `new_k` other than the current `max_k` and strictly smaller
+than the current size, `downsize` keeps the first `2^new_k` monomial bases and replaces the
+Lagrange basis by `g_to_lagrange` of the truncated vector (and touches nothing else). -/
+theorem downsize_spec (dom : Nat → Dom K) (p : ParamsS K) (newK : Nat)
+    (hne : p.g.length.log2 ≠ newK) (hlt : 2 ^ newK < p.gLagrange.length) :
+    downsizeS dom p newK =
+      some { g := p.g.take (2 ^ newK), gLagrange := gToLagrange (dom newK) (p.g.take (2 ^ newK)) } := by
+  simp [downsizeS, hne, hlt]
+
+/-- `downsize_same_k`: downsizing to the current `max_k` is the identity. -/
+theorem downsize_same_k (dom : Nat → Dom K) (p : ParamsS K) : downsizeS dom p p.g.length.log2 = some p := by
+  simp [downsizeS]
+
+/-- `downsize_larger_panics`: asking for a size that is not smaller (and not the current
+`max_k`) hits the assertion `n < g_lagrange.len()`. -/
+theorem downsize_larger_panics (dom : Nat → Dom K) (p : ParamsS K) (newK : Nat)
+    (hne : p.g.length.log2 ≠ newK) (hge : p.gLagrange.length ≤ 2 ^ newK) : downsizeS dom p newK = none := by
+  simp [downsizeS, hne, Nat.not_lt.mpr hge]
+
+/-- `downsize_eq_setup`: parameters set up for `2^k₁` from the secret `s` and downsized to
+`k₂ < k₁` ARE the parameters `unsafe_setup` derives for `2^k₂` from the same secret: the
+truncated monomial basis is the smaller monomial basis, and its inverse DFT is the closed-form
+Lagrange basis `(s^n − 1)/n · ω^i/(s − ω^i)`. Hypotheses: the constants of the target domain are
+what they should be (`ω^n = 1`, `ω·ω⁻¹ = 1`) and `s` is not in the domain (otherwise
+`unsafe_setup` itself panics on `invert().unwrap()`). -/
+theorem downsize_eq_setup (dom : Nat → Dom K) (s : K) (k₁ k₂ : Nat) (hk : k₂ < k₁)
+    (hω : (dom k₂).omega ^ 2 ^ k₂ = 1) (hinv : (dom k₂).omega * (dom k₂).omegaInv = 1)
+    (hs : ∀ i < 2 ^ k₂, s - (dom k₂).omega ^ i ≠ 0) :
+    downsizeS dom (setupS (·⁻¹) (dom k₁) s (2 ^ k₁)) k₂ = some (setupS (·⁻¹) (dom k₂) s (2 ^ k₂)) := by
+  have hpow : 2 ^ k₂ < 2 ^ k₁ := Nat.pow_lt_pow_right (by omega) hk
+  have hlen : (setupS (·⁻¹) (dom k₁) s (2 ^ k₁)).g.length = 2 ^ k₁ := by simp [setupS]
+  have hlen' : (setupS (·⁻¹) (dom k₁) s (2 ^ k₁)).gLagrange.length = 2 ^ k₁ := by simp [setupS]
+  rw [downsize_spec dom _ k₂ (by rw [hlen, Nat.log2_two_pow]; omega) (by rw [hlen']; exact hpow)]
+  have htake : (setupS (·⁻¹) (dom k₁) s (2 ^ k₁)).g.take (2 ^ k₂) = (List.range (2 ^ k₂)).map (powN s) := by
+    simp only [setupS, ← List.map_take, List.take_range, Nat.min_eq_left (Nat.le_of_lt hpow)]
+  rw [htake]
+  simp only [setupS, gToLagrange, List.length_map, List.length_range, Option.some.injEq, ParamsS.mk.injEq,
+    true_and]
+  apply List.map_congr_left
+  intro i hi
+  have hi' : i < 2 ^ k₂ := List.mem_range.mp hi
+  have hsum : sumTo (fun j => ((List.range (2 ^ k₂)).map (powN s)).getD j 0 * powN (powN (dom k₂).omegaInv i) j) (2 ^ k₂)
+      = sumTo (fun j => s ^ j * ((dom k₂).omegaInv ^ i) ^ j) (2 ^ k₂) := by
+    apply sumTo_congr
+    intro j hj
+    simp [List.getD, hj, powN_eq_pow]
+  rw [hsum, idft_monomials s (dom k₂).omega (dom k₂).omegaInv (2 ^ k₂) i hω hinv (hs i hi')]
+  simp only [powN_eq_pow]
+  ring
+
+/-- `downsize_downsize`: downsizing in two steps equals downsizing in one (the result depends
+only on the truncated monomial basis). -/
+theorem downsize_downsize (dom : Nat → Dom K) (p : ParamsS K) (k₀ k₁ k₂ : Nat)
+    (hg : p.g.length = 2 ^ k₀) (hgl : p.gLagrange.length = 2 ^ k₀) (h₁ : k₁ < k₀) (h₂ : k₂ < k₁) :
+    (downsizeS dom p k₁).bind (fun q => downsizeS dom q k₂) = downsizeS dom p k₂ := by
+  have p1 : 2 ^ k₁ < 2 ^ k₀ := Nat.pow_lt_pow_right (by omega) h₁
+  have p2 : 2 ^ k₂ < 2 ^ k₁ := Nat.pow_lt_pow_right (by omega) h₂
+  rw [downsize_spec dom p k₁ (by rw [hg, Nat.log2_two_pow]; omega) (by rw [hgl]; exact p1),
+    downsize_spec dom p k₂ (by rw [hg, Nat.log2_two_pow]; omega) (by rw [hgl]; omega)]
+  simp only [Option.bind_some]
+  have l1 : (p.g.take (2 ^ k₁)).length = 2 ^ k₁ := by rw [List.length_take, hg]; omega
+  rw [downsize_spec dom _ k₂ (by simp only [l1, Nat.log2_two_pow]; omega)
+    (by simp only [gToLagrange, List.length_map, List.length_range, l1]; exact p2)]
+  simp only [List.take_take, Nat.min_eq_left (Nat.le_of_lt p2)]
+
+end
+
+/-- Non-vacuity over ℚ-like data is awkward without a concrete field; the rationals serve:
+`ω = −1`, `n = 2`, `s = 3`: downsizing the size-4 setup (ω₂ = any fourth root is not needed for
+the statement's hypotheses at the target size) gives the size-2 setup. -/
+example : downsizeS (fun _ => (⟨-1, -1, 1 / 2⟩ : Dom ℚ)) (setupS (·⁻¹) ⟨-1, -1, 1 / 2⟩ 3 (2 ^ 2)) 1
+    = some (setupS (·⁻¹) ⟨-1, -1, 1 / 2⟩ 3 (2 ^ 1)) :=
+  downsize_eq_setup (fun _ => (⟨-1, -1, 1 / 2⟩ : Dom ℚ)) 3 2 1 (by decide) (by norm_num) (by norm_num)
+    (by intro i hi; have : i = 0 ∨ i = 1 := by omega
+        rcases this with rfl | rfl <;> norm_num)
+
+/-! ## Constants read from the sources (regenerated on every check) -/
+
+/-- `consts_header`: the version is one byte; the constant `bytes_length` adds is at least the
+real 6-byte header (so the capacity hint of `to_bytes` never under-allocates); the transcript
+hash is the 64-byte BLAKE2b `from_uniform_bytes` needs, personalised by exactly 16 bytes; raw
+images are twice the compressed ones. -/
+theorem consts_header :
+    Gen.vkVersion < 256 ∧ 6 ≤ Gen.vkBytesLengthHeader ∧ Gen.treprHashLen = 64 ∧
+    Gen.treprPersonal.length = 16 ∧ Gen.g2Compressed = 2 * Gen.g1Compressed := by decide
+
+/-- `fr_constants`: the Montgomery constants written in `fq.rs` are what they claim to be:
+`R = 2^256 mod r`; `ROOT_OF_UNITY` has order exactly `2^S`; `ROOT_OF_UNITY_INV` and `TWO_INV`
+are the inverses; `DELTA = 7^(2^S)` has order dividing `(r−1)/2^S` and is not 1. -/
+theorem fr_constants :
+    Gen.montRMont = 2 ^ 256 % frR ∧
+    powMod rootOfUnityN (2 ^ Gen.frS) frR = 1 ∧ powMod rootOfUnityN (2 ^ (Gen.frS - 1)) frR ≠ 1 ∧
+    rootOfUnityN * rootOfUnityInvN % frR = 1 ∧ 2 * twoInvN % frR = 1 ∧
+    deltaN = powMod 7 (2 ^ Gen.frS) frR ∧ powMod deltaN ((frR - 1) / 2 ^ Gen.frS) frR = 1 ∧ deltaN ≠ 1 := by
+  decide +kernel
+
+/-- `dom_constants_ok`: for every `k ≤ S` the constants the code derives for the `2^k` domain
+satisfy the hypotheses of `downsize_eq_setup`: `ω_k^(2^k) = 1`, `ω_k·ω_k⁻¹ = 1`, and
+`2^k · n_inv = 1` (so `TWO_INV^k` of `g_to_lagrange` is the `F::from(n).invert()` of
+`unsafe_setup`). -/
+theorem dom_constants_ok : ∀ k ∈ List.range (Gen.frS + 1),
+    powMod (omegaN k) (2 ^ k) frR = 1 ∧ omegaN k * omegaInvN k % frR = 1 ∧ 2 ^ k * nInvN k % frR = 1 := by
+  decide +kernel
 
 end MidnightZK.C17
